@@ -2,10 +2,10 @@ package props
 
 import (
 	"fmt"
-	"regexp"
 	"go/ast"
 	"go/token"
 	"go/types"
+	"regexp"
 	"sort"
 	"strings"
 
@@ -319,8 +319,8 @@ var tags32 = map[string]bool{
 
 // kinds in which a 32-bit tag names the *source* operand while the result is 64 bits wide
 var tagNamesSource = map[string]string{
-	"operationKindFConvertFromI": "B1 tags the integer source; the f64 result is a full 64-bit pattern",
-	"operationKindITruncFromF":   "the outer switch tags the float source (f32); the inner one tags the result and is checked",
+	"operationKindFConvertFromI":     "B1 tags the integer source; the f64 result is a full 64-bit pattern",
+	"operationKindITruncFromF":       "the outer switch tags the float source (f32); the inner one tags the result and is checked",
 	"operationKindF64PromoteFromF32": "result is f64",
 }
 
@@ -1020,7 +1020,6 @@ func astTrueReturnsPass(info *types.Info, fd *ast.FuncDecl, idx int, isTarget fu
 	}
 	return okAll && sawTrue
 }
-
 
 // helperReturnsClean32: every return expression of f (a wazero function) is a conversion of an unsigned ≤32-bit value,
 // a small constant, or a call of such a helper.
